@@ -484,6 +484,23 @@ fn mask_quoted_chars(p: &str) -> String {
     out
 }
 
+/// Does the source hold a `!` in a type position other than a return type: after `:`
+/// (parameter, field, annotated let), inside `[..]` of a type, or followed by `?`.
+fn has_never_type_annotation(src: &str) -> bool {
+    let b: Vec<char> = src.chars().collect();
+    for (i, c) in b.iter().enumerate() {
+        if *c != '!' || b.get(i + 1) == Some(&'=') {
+            continue;
+        }
+        let prev = b[..i].iter().rev().find(|x| !x.is_whitespace());
+        let next = b[i + 1..].iter().find(|x| !x.is_whitespace());
+        if matches!(prev, Some(':') | Some('[')) || (prev == Some(&',') && matches!(next, Some(']') | Some(',') | Some('}'))) || next == Some(&'?') {
+            return true;
+        }
+    }
+    false
+}
+
 /// Signature of a panic inside a compilation stage. A panic that carries Cranelift
 /// verifier errors is named after the message of the first error (digits masked),
 /// because the generic signature is cut off before it.
@@ -592,8 +609,16 @@ impl Family for Totality {
         });
         match res {
             Err(p) => {
+                let mut sig = compile_panic_sig(&p, stage.get());
+                // "did not find Var" in code generation has a known cause: a *place* (parameter,
+                // field, binding) whose declared type is or contains the never type `!` is read
+                // and passed on. Inputs with a `!` in a type position get their own signature, so
+                // that the same message from any other input stays a separate finding.
+                if p.contains("did not find Var") && input.files.iter().any(|(_, src)| has_never_type_annotation(src)) {
+                    sig.push_str("/input-declares-a-never-typed-place");
+                }
                 out.viol(
-                    compile_panic_sig(&p, stage.get()),
+                    sig,
                     format!("compiler panicked in stage {} on a {} input: {p}", stage.get(), input.family),
                     J::obj().set("stage", stage.get()),
                 );
